@@ -47,10 +47,12 @@ def make(base, tree):
             os.makedirs(p, exist_ok=True)
     for rel, kind in tree:
         p = os.path.join(base, *rel)
-        if kind in ("f", "p", "l"):
+        if kind in ("f", "p", "l", "L"):
             os.makedirs(os.path.dirname(p), exist_ok=True)
             if kind == "f":
                 open(p, "w").close()
+            elif kind == "L":
+                os.symlink("..", p)                       # a symbolic link to a directory (its own parent): listed once, never walked through
             elif kind == "p":
                 os.mkfifo(p)                              # a FIFO: not a directory, not a regular file
             else:
@@ -71,9 +73,13 @@ def descendants(top):
 def check(src, dst, tree_desc):
     problems = []
     exp = descendants(dst)
-    got = list(generate_sub_moved_events(src, dst))
+    cap = 5 * len(exp) + 20      # a generator that walks through a link back up the tree would go on (nearly) for ever
+    got = list(itertools.islice(generate_sub_moved_events(src, dst), cap))
+    if len(got) >= cap:
+        return [f"moved: more than {cap} events for a tree of {len(exp)} descendants (first surplus: {got[len(exp)]!r})"]
     empty = "" if isinstance(dst, str) else ""
     want = {}
+    linkdirs = {p for p, _isd in exp if os.path.islink(p) and os.path.isdir(p)}   # flavour of a link to a directory: not judged
     for p, isd in exp:
         old = (src + p[len(dst):]) if src else ""
         want[p] = (DirMovedEvent if isd else FileMovedEvent, old)
@@ -85,7 +91,7 @@ def check(src, dst, tree_desc):
         w = want.get(ev.dest_path)
         if w is None:
             problems.append(f"moved: event for a path that is not a descendant: {ev!r}")
-        elif type(ev) is not w[0] or ev.src_path != w[1] or not ev.is_synthetic:
+        elif (type(ev) is not w[0] and ev.dest_path not in linkdirs) or ev.src_path != w[1] or not ev.is_synthetic:
             problems.append(f"moved: got {type(ev).__name__}({ev.src_path!r} -> {ev.dest_path!r}, synthetic={ev.is_synthetic}) expected {w[0].__name__}({w[1]!r} -> {ev.dest_path!r}, synthetic=True)")
         par = os.path.dirname(ev.dest_path)
         if par != dst and par not in seen:
@@ -93,7 +99,7 @@ def check(src, dst, tree_desc):
     for p in want:
         if p not in seen:
             problems.append(f"moved: no event for descendant {p!r}")
-    gotc = list(generate_sub_created_events(dst))
+    gotc = list(itertools.islice(generate_sub_created_events(dst), cap))
     seen = {}
     for ev in gotc:
         if ev.src_path in seen:
@@ -102,7 +108,7 @@ def check(src, dst, tree_desc):
         w = want.get(ev.src_path)
         if w is None:
             problems.append(f"created: event for non-descendant {ev!r}")
-        elif type(ev) is not (DirCreatedEvent if w[0] is DirMovedEvent else FileCreatedEvent) or not ev.is_synthetic or ev.dest_path != "":
+        elif (type(ev) is not (DirCreatedEvent if w[0] is DirMovedEvent else FileCreatedEvent) and ev.src_path not in linkdirs) or not ev.is_synthetic or ev.dest_path != "":
             problems.append(f"created: wrong event {ev!r}")
         par = os.path.dirname(ev.src_path)
         if par != dst and par not in seen:
@@ -164,11 +170,11 @@ def main():
     # entries that are neither regular files nor directories (FIFO, dangling symlink): file flavour, one event each
     special = [t for t in ts if any(k == "f" for _r, k in t)][:: max(1, len(ts) // 12)]
     for tree in special:
-        for sub in ("p", "l"):
+        for sub in ("p", "l", "L"):
             t2 = tuple((r, sub if k == "f" else k) for r, k in tree)
             for mode, kind in (("rel", "str"), ("abs", "bytes")):
                 pr = run_case(t2, "a", "b", mode, kind)
-                bat.case(hash((t2, mode, kind)), desc={"tree": [["/".join(r), k] for r, k in t2], "root": mode, "type": kind, "special": {"p": "FIFO", "l": "dangling symlink"}[sub]})
+                bat.case(hash((t2, mode, kind)), desc={"tree": [["/".join(r), k] for r, k in t2], "root": mode, "type": kind, "special": {"p": "FIFO", "l": "dangling symlink", "L": "symlink to a directory (..)"}[sub]})
                 if pr:
                     bat.fail("C14.sub-events(special entries)", pr[0], {"tree": [[list(r), k] for r, k in t2], "new": "a", "old": "b", "mode": mode, "kind": kind, "problems": pr[:3]}, "generate_sub_moved_events")
     # third anchor of the property: the same prefix rewrite in the watch-path map of Inotify.read_events
